@@ -332,7 +332,19 @@ func init() {
 			offOK = indepVerify(st, mut[idslot.off:idslot.off+idslot.n], mut[off.Int("from"):off.Int("to")], mut[offSig.off:offSig.off+offSig.n])
 		}
 		sigOK := indepVerify(finalSt, finalKey, append(append([]byte{}, prefix...), mut[:sigslot.off]...), mut[sigslot.off:sigslot.off+sigslot.n])
-		return Res{"setup": true, "signed": ints(signed), "mut": ints(mut),
+		edit := map[string]any{"done": false, "nplaces": 0, "neffective": 0, "stale": []any{}}
+		if adv.Str("kind") == "edit_value_after_verify" && a.Fn() != "ReadOfflineSignature" {
+			// the same independent decision, on a serialisation of the same length and layout
+			edit = editAfterVerify(a.Fn(), signed, a, func(b []byte) bool {
+				fSt, fKey, oOK := st, b[idslot.off:idslot.off+idslot.n], true
+				if hasOff {
+					fSt, fKey = off.Int("tst"), b[offKey.off:offKey.off+offKey.n]
+					oOK = indepVerify(st, b[idslot.off:idslot.off+idslot.n], b[off.Int("from"):off.Int("to")], b[offSig.off:offSig.off+offSig.n])
+				}
+				return oOK && indepVerify(fSt, fKey, append(append([]byte{}, prefix...), b[:sigslot.off]...), b[sigslot.off:sigslot.off+sigslot.n])
+			})
+		}
+		return Res{"setup": true, "signed": ints(signed), "mut": ints(mut), "edit": edit,
 			"pre":   map[string]any{"parse_ok": preParse, "verify_ok": preVerify, "err": preErr},
 			"post":  map[string]any{"parse_ok": postParse, "verify_ok": postVerify, "err": postErr},
 			"indep": map[string]any{"sig_ok": sigOK, "off_ok": offOK}}
